@@ -62,6 +62,19 @@ func c06Scenarios(tier string) []*hist.Scenario {
 			mk(f, f.ops[:1], "", 2, 1, 2, 2, 1, 0, never)
 		}
 	}
+	// three clients of which one leaves (detach / deactivate) while another lags:
+	// the leaver's row goes, the others' rows stay and keep constraining the minimum
+	for i, f := range fams {
+		if i >= 4 && tier == "quick" {
+			break
+		}
+		k, y := 1, 2 // 2.2k histories per kind; thorough K2Y3: 31k
+		if tier == "thorough" {
+			k, y = 2, 3
+		}
+		name := fmt.Sprintf("c06/%s/%s/leaveN3K%dY%dD1", f.name, f.ops[0], k, y)
+		out = append(out, &hist.Scenario{Name: name, N: 3, Init: f.init, Alphabet: f.ops[:1], K: k, Y: y, D: 1, Deact: true, MaxPerClient: 1, Cfg: never})
+	}
 	// changes made by undo / redo carry clocks like any other change
 	for i, f := range fams {
 		if i >= 4 {
@@ -167,6 +180,32 @@ func c06OnRPC(x *hist.Exec) func(rpc *hist.RPC) {
 			return
 		}
 		x.Data["minvv"] = 1
+		// against what every attached, participating client has actually
+		// acknowledged - the harness's own record of the vector each replica sent
+		// with its last request - not only against the rows the server kept (a
+		// row that was wiped constrains nothing: seeded change C06-3)
+		for _, rep := range x.Reps {
+			if !rep.Attached || x.Cfg.IsOptOut(rep.Role) || rep.Role == role {
+				continue
+			}
+			have := x.ReqVV[rep.Role]
+			if have == nil {
+				continue
+			}
+			if _, ok := rows[rep.Cli.ID().String()]; !ok {
+				x.Viol = append(x.Viol, hist.Violation{Kind: "vv-row-missing", Sig: "vv-row-missing",
+					Detail: fmt.Sprintf("after the response to client %d (%s) the attached client %d has no version-vector row", role, rpc.Proc, rep.Role)})
+				return
+			}
+			for a, l := range minVV {
+				if l > have.VersionOf(a) {
+					x.Viol = append(x.Viol, hist.Violation{Kind: "minvv-overstates", Sig: "minvv-overstates:acknowledged",
+						Detail: fmt.Sprintf("response to client %d (%s): minVV %s exceeds what the attached client %d has acknowledged %s",
+							role, rpc.Proc, vvStr(x, minVV), rep.Role, vvStr(x, have))})
+					return
+				}
+			}
+		}
 		for cid, row := range rows {
 			for a, l := range minVV {
 				if l > row.VersionOf(a) {
